@@ -42,9 +42,16 @@ func makeInner(msg string) *errs.Error { return errs.New(msg) }
 type fmtArea struct{}
 
 var fmtKinds = []string{"new", "newf", "cause", "causef", "wrap", "wraptyped", "appendplain", "appendnil", "agg", "empty", "recover", "log"}
-var causeKinds = []string{"plain", "fwrap", "errs", "nil"}
+var causeKinds = []string{"plain", "fwrap", "errs", "nil", "tnil", "fnil"}
 
 func (fmtArea) Gen(r *hx.Rng, n int, _ string, emit func(string)) {
+	// fixed preamble: errors built with a typed-nil cause (fix f303e30) are rendered with every verb
+	for _, k := range []string{"cause", "causef", "log", "recover", "wrap", "wraptyped", "appendplain", "appendnil"} {
+		for _, c := range []string{"tnil", "fnil"} {
+			emit("chk " + k + " " + c + " 61 62 2")
+			emit("chk " + k + " " + c + " - - 2")
+		}
+	}
 	for i := 0; i < n; i++ {
 		k := fmtKinds[i%len(fmtKinds)]
 		if i >= 2*len(fmtKinds) {
@@ -62,6 +69,10 @@ func mkCause(kind, msg string) error {
 		return &fwrap{msg: msg, inner: errors.New("inner-" + msg)}
 	case "errs":
 		return makeInner(msg)
+	case "tnil":
+		return (*errs.Error)(nil)
+	case "fnil":
+		return (*fptr)(nil)
 	}
 	return nil
 }
@@ -173,8 +184,16 @@ func checkRender(e *errs.Error, wantMsg, creator string, cause error, wrapped bo
 				}
 			}
 		}
-	} else if strings.Contains(v, "Caused by") {
-		return fmt.Sprintf("FAIL Caused by without a cause: %q", v)
+	} else {
+		if strings.Contains(v, "Caused by") || strings.Contains(pv, "Caused by") {
+			return fmt.Sprintf("FAIL Caused by without a cause: %q", v)
+		}
+		if errors.Unwrap(e) != nil {
+			return "FAIL Unwrap of an error without a cause is not nil"
+		}
+		if st := e.StackTrace(true); !strings.HasSuffix(v, st) || !strings.HasPrefix(st, "    [main."+creator+"] ") {
+			return fmt.Sprintf("FAIL StackTrace %q is not the stack part of %%v", st)
+		}
 	}
 	if e.ErrorOrNil() != error(e) {
 		return "FAIL ErrorOrNil of a non-empty error is not the error"
@@ -224,10 +243,16 @@ func (fmtArea) Run(line string) string {
 		if fail == "" && !strings.Contains(fmt.Sprintf("%+v", e), "toolbox/errs.Newf] ") {
 			fail = "FAIL %+v of a Newf error lacks the errs.Newf frame"
 		}
-	case "cause":
-		fail = checkRender(makeCause(msg, cause), msg, "makeCause", cause, false)
-	case "causef":
-		fail = checkRender(makeCausef(msg, cause), msg, "makeCausef", cause, false)
+	case "cause", "causef":
+		want := cause
+		if isNilish(cause) {
+			want = nil // NewWithCause drops a typed-nil cause; the error must still render with every verb
+		}
+		if kind == "cause" {
+			fail = checkRender(makeCause(msg, cause), msg, "makeCause", want, false)
+		} else {
+			fail = checkRender(makeCausef(msg, cause), msg, "makeCausef", want, false)
+		}
 	case "wrap", "wraptyped":
 		var res error
 		creator := "makeWrap"
@@ -238,7 +263,7 @@ func (fmtArea) Run(line string) string {
 			creator = "makeWrapTyped"
 		}
 		switch ckind {
-		case "nil":
+		case "nil", "tnil", "fnil":
 			if kind == "wrap" && res != nil {
 				fail = "FAIL Wrap(nil) is not nil"
 			}
@@ -270,7 +295,7 @@ func (fmtArea) Run(line string) string {
 			}
 		}
 	case "appendplain":
-		if cause == nil {
+		if isNilish(cause) {
 			cause = errors.New(cmsg)
 		}
 		if ce, ok := cause.(*errs.Error); ok {
@@ -285,7 +310,7 @@ func (fmtArea) Run(line string) string {
 		}
 		fail = checkRender(makeAppend(cause), cmsg, "makeAppend", cause, true)
 	case "appendnil":
-		if cause == nil {
+		if isNilish(cause) {
 			cause = errors.New(cmsg)
 		}
 		if _, ok := cause.(*errs.Error); ok {
@@ -337,6 +362,23 @@ func (fmtArea) Run(line string) string {
 			fail = "FAIL %v of an empty error"
 		}
 	case "recover":
+		if ckind == "tnil" || ckind == "fnil" {
+			// panic(typed nil error): Recovery hands it to NewWithCause, which drops it; the result must render
+			got := doRecover(mkCause(ckind, cmsg))
+			e, ok := got.(*errs.Error)
+			if !ok || e == nil {
+				fail = "FAIL Recovery did not hand an *Error to the handler"
+				break
+			}
+			fail = checkRender(e, "recovered from panic", "panicWith", nil, false)
+			if strings.HasPrefix(fail, "FAIL %v first frame") || strings.HasPrefix(fail, "FAIL StackTrace") {
+				fail = "" // the first frames are errs.Recovery/runtime.gopanic: only the rendering itself is checked
+				if !strings.Contains(fmt.Sprintf("%v", e), "[main.panicWith] ") {
+					fail = "FAIL Recovery stack does not name the panicking function"
+				}
+			}
+			break
+		}
 		if cause == nil {
 			cause = errors.New(cmsg)
 		}
